@@ -276,6 +276,173 @@ def job(arg):
     return out
 
 
+def trace_job(arg):
+    """code -> spec: random workbooks, random histories, every iterative
+    evaluate() recorded event by event (validated by TLC in the caller)"""
+    from harness import itertrace as IT, randwb
+    kind, n_wb, seed = arg
+    rnd = random.Random(seed)
+    out = dict(traces=[], violations=[], workbooks=0, evaluates=0, bound_checks=0,
+               early_stops=0, agree_checks=0, sample=None)
+    tols = [2.0 ** -4, 2.0 ** -8, 2.0 ** -12]
+    for _ in range(n_wb):
+        if kind == 'cyclic':
+            wb, q, fcells = IT.random_cyclic(rnd)
+            targets = fcells + [f for f in wb['formulas'] if f not in fcells]
+            oracle = None
+        else:
+            wb = randwb.random_workbook(rnd, nrows=rnd.choice([2, 3]), ncols=rnd.choice([3, 4, 5]))
+            n = W.nodes(wb)
+            targets = n['formulas'] + n['ranges'] + n['aliases'] + n['inputs']
+            q, fcells = None, []
+            oracle = engine.Oracle(wb)
+        cells, arrays = W.cells(wb)
+        try:
+            m = xl.compile_wb(cells, arrays=arrays, cycles=dict(CYCLES))
+        except Exception as exc:      # noqa
+            out['violations'].append((f'workbook does not compile with cycles on: {exc!r}',
+                                      dict(cells=cells)))
+            continue
+        out['workbooks'] += 1
+        rec = IT.Recorder(m)
+        inputs = dict(wb['inputs'])
+        hist = []
+        for step in range(8):
+            built_inputs = [a for a in inputs if W.addr(a) in m.cell_map]
+            if built_inputs and rnd.random() < 0.3:
+                a = rnd.choice(built_inputs)
+                val = rnd.choice([0, 1, 3, 8, 64, 4000] if kind == 'cyclic' else [1, 2, 5, 'a', None, True])
+                m.set_value(W.addr(a), val)
+                inputs[a] = val
+                hist.append(['set_value', a, val])
+                continue
+            n_it = rnd.choice([1, 2, 3, 5, 8, 100])
+            tol = rnd.choice(tols)
+            t = rnd.choice(targets)
+            two = kind == 'cyclic' and rnd.random() < 0.15
+            address = [W.addr(t), W.addr(rnd.choice(targets))] if two else W.addr(t)
+            status, got, events, values = rec.evaluate(address, n_it, tol)
+            hist.append(['evaluate', address, n_it, tol])
+            out['evaluates'] += 1
+            case = dict(cells=cells, history=list(hist))
+            out['traces'].append(dict(iterations=n_it, events=events, case=case, kind=kind))
+            if out['sample'] is None and kind == 'cyclic' and len(events) > 12:
+                out['sample'] = dict(cells=cells, history=list(hist), events=events[:14])
+            if status == 'exc':
+                if kind == 'cyclic':
+                    out['violations'].append((f'evaluate({address}, {n_it}, {tol}) raised {got}', case))
+                else:
+                    st, want = oracle.values(inputs)[t]
+                    if st == 'ok':
+                        out['violations'].append((
+                            f'iterative evaluate({address}) raised {got}; plain evaluation of a '
+                            f'from-scratch compile gives {want!r}', case))
+                break
+            passes = sum(e['ev'] == 'pass' for e in events)
+            if passes > n_it:
+                out['violations'].append((
+                    f'evaluate({address}, iterations={n_it}) performed {passes} passes', case))
+            if kind == 'cyclic' and passes < n_it:
+                out['early_stops'] += 1
+                fp = IT.fixed_point(wb, {a: x for a, x in inputs.items()})
+                lim = q / (1 - q) * Fraction(tol) * IT.REL
+                for c, (before, val) in values[-1].items():
+                    if c in fcells and isinstance(val, (int, float)) and not isinstance(val, bool):
+                        out['bound_checks'] += 1
+                        err = abs(Fraction(val) - fp[c])
+                        if err > lim:
+                            out['violations'].append((
+                                f'{c} = {val!r} after an early stop (pass {passes} of {n_it}) is '
+                                f'{float(err):.3g} from the fixed point {float(fp[c]):.6g}: more than '
+                                f'q/(1-q) x tolerance = {float(lim):.3g} (q = {q})', case))
+            if kind == 'acyclic':
+                out['agree_checks'] += 1
+                st, want = oracle.values(inputs)[t]
+                if st != 'ok' or not xl.same_value(got, want):
+                    out['violations'].append((
+                        f'iterative evaluate({address}, iterations={n_it}) returned {got!r}; plain '
+                        f'evaluation of a from-scratch compile with inputs {inputs} gives {want!r}',
+                        case))
+    out['violations'] = out['violations'][:6]
+    return out
+
+
+def trace_part(v, tier, seed):
+    """random executions validated against TraceIter.tla"""
+    from harness import itertrace as IT
+    n_jobs, per = (8, 12) if tier == 'quick' else (16, 150)
+    jobs = [('cyclic', per, seed * 1000 + i) for i in range(n_jobs)] + \
+           [('acyclic', per // 2, seed * 1000 + 500 + i) for i in range(n_jobs // 2)]
+    traces, totals = [], dict(workbooks=0, evaluates=0, bound_checks=0, early_stops=0, agree_checks=0)
+    for r in parallel.run_jobs(trace_job, jobs):
+        traces += r['traces']
+        for k in totals:
+            totals[k] += r[k]
+        for desc, case in r['violations']:
+            v.violation(desc, case)
+        if r['sample']:
+            v.sample(r['sample'], limit=4)
+    # binding self-test: three corrupted copies must be rejected, each by its clause
+    donor = next((t for t in traces if t['kind'] == 'cyclic'
+                  and sum(e['ev'] == 'pass' for e in t['events']) < t['iterations']
+                  and any(e['ev'] == 'end' for e in t['events'])), None)
+    expect = []
+    if donor:
+        a = json.loads(json.dumps(donor))
+        for e in reversed(a['events']):
+            if e['ev'] == 'end':
+                e['moved'] = True
+                break
+        b = json.loads(json.dumps(donor))
+        b['events'] = [dict(ev='pass')] * (b['iterations'] + 1) + [dict(ev='return', k=b['iterations'] + 1, todo=[])]
+        c = json.loads(json.dumps(donor))
+        i = next(i for i, e in enumerate(c['events']) if e['ev'] == 'end')
+        del c['events'][i]
+        for t, clause in ((a, 'HonestStop'), (b, 'PassBound'), (c, None)):
+            t['selftest'] = True
+            traces.append(t)
+            expect.append((len(traces) - 1, clause))
+    res, verdicts = IT.validate(traces)
+    v.tlc_runs.append(dict(run=f'TraceIter {len(traces)} traces', distinct=res.distinct,
+                           generated=res.generated, depth=res.depth, wall_s=round(res.wall, 2)))
+    v.states += res.distinct
+    v.transitions += res.generated
+    for i, clause in expect:
+        got = verdicts[i][0]
+        if got == 'ok' or (clause and got != clause):
+            raise tlc.MachineryFailure(f'TraceIter accepted / misjudged a corrupted trace: '
+                                       f'expected {clause}, got {verdicts[i]}')
+    accepted = drifted = 0
+    for t, (verdict, line, drift) in zip(traces, verdicts):
+        if t.get('selftest'):
+            continue
+        if verdict == 'ok':
+            accepted += 1
+            if drift:
+                drifted += 1
+                if drifted <= 3:
+                    v.note(f'spec-drift TraceIter {drift}: history {t["case"]["history"][-1]}')
+        elif verdict == 'incomplete':
+            raise tlc.MachineryFailure(f'TraceIter could not read line {line + 1} of a trace: '
+                                       f'{t["events"][line:line + 1]}')
+        else:
+            what = {'HonestStop': 'evaluate returned before the last permitted pass although a cell '
+                                  'moved by more than the tolerance in the last pass',
+                    'PassBound': 'more passes than the requested number of iterations',
+                    'NoReentry': 'a cell whose calculation is in progress is calculated again',
+                    'Nesting': 'evaluation events are not properly nested'}.get(verdict, verdict)
+            moved_cells = sorted({e['c'] for e in t['events'][:line] if e.get('moved')})
+            v.violation(f'[trace] {what} (clause {verdict} of TraceIter.tla at event {line}: '
+                        f'{t["events"][line - 1:line]}; cells that moved: {moved_cells}); '
+                        f'last call {t["case"]["history"][-1]}', t['case'])
+    v.traces += accepted
+    v.evaluations += totals['evaluates']
+    v.distinct.update(('trace', i) for i in range(len(traces)))
+    v.extra['trace_validation'] = dict(totals, traces=len(traces) - len(expect), accepted=accepted,
+                                       spec_drift=drifted, corrupted_rejected=len(expect),
+                                       events=sum(len(t['events']) for t in traces))
+
+
 def run(tier, seed):
     v = Verdict(PID, tier, seed)
     T4, T8, T12 = 4096, 256, 16          # tolerances 2^-4, 2^-8 and 2^-12 at scale 2^16
@@ -325,12 +492,15 @@ def run(tier, seed):
         for desc, case in r['violations']:
             v.violation(desc, case)
         v.sample(r['sample'], limit=3)
+    trace_part(v, tier, seed)
     v.extra.update(
         exhaustive=True,
         rule='one case = one transition (state, action) of the TLC graph of EngineIter.tla '
              'executed on a real cycles=True model; cyclic systems: histories up to the depth '
              'bound, values exact at scale 2^16 (states with inexact values are excluded '
-             'from the projection comparison, never from the verdict)')
+             'from the projection comparison, never from the verdict); plus one case per '
+             'iterative evaluate() of a random history on a random circular / acyclic workbook, '
+             'recorded event by event and validated by TLC against TraceIter.tla')
     v.assumptions = ['passes are counted at _IterativeEvalTracker.inc_iteration_number',
                      'per-pass cell values come from the PYCEL_VERIF end-of-evaluation hook',
                      'no-data workbooks (no stored results) only']
